@@ -241,3 +241,16 @@ def scrape_vardecl_policy(cgenerator):
         if w not in ("emitter", "defemitter"):
             raise RuntimeError("cgenerator.lua: VarDecl: unknown emitter %r" % w)
     return {"dead_in_def": all(w == "defemitter" for w in dead), "asgnret_in_def": asg[0] == "defemitter"}
+
+
+def scrape_aligned_domain(analyzer):
+    """analyzer visitors.Annotation: the values `<aligned(N)>` accepts.  Returns {"pow2": bool, "max": int}:
+    pow2 = a value that is not a positive power of two raises an error, max = largest accepted value (0 = the
+    annotation is not validated at all)."""
+    m = re.search(r"if name == 'aligned' and \((.*?)\) then\s*\n\s*node:raisef", analyzer)
+    if not m:
+        return {"pow2": False, "max": 0}
+    cond = " ".join(m.group(1).split())
+    pow2 = "params < 1" in cond and "params & (params - 1) ~= 0" in cond
+    mx = re.search(r"params > (0x[0-9a-fA-F]+|\d+)", cond)
+    return {"pow2": pow2, "max": int(mx.group(1), 0) if (mx and pow2) else 0}
